@@ -9,6 +9,7 @@ package main
 // business, a missing map key yields the zero value.
 
 import (
+	"go/constant"
 	"fmt"
 	"go/types"
 	"strings"
@@ -89,10 +90,18 @@ func (c *Ctx) constTableOf(g *ssa.Global) *constTable {
 				switch x := r.(type) {
 				case *ssa.MapUpdate:
 					k, ok := x.Key.(*ssa.Const)
-					if !ok || k.Value == nil || !isIntType(k.Type()) || !isConst(x.Value) {
+					if !ok || k.Value == nil || !(isIntType(k.Type()) || isBoolType(k.Type())) || !isConst(x.Value) {
 						return nil
 					}
-					t.entries[k.Int64()] = map[string]ssa.Value{"": x.Value}
+					kv := int64(0)
+					if isBoolType(k.Type()) {
+						if constant.BoolVal(k.Value) {
+							kv = 1
+						}
+					} else {
+						kv = k.Int64()
+					}
+					t.entries[kv] = map[string]ssa.Value{"": x.Value}
 				case *ssa.Store, *ssa.DebugRef:
 				default:
 					return nil
